@@ -146,3 +146,42 @@ Proof.
   - apply (scrub_simplified_normal fm r (v0, ps) Es).
   - apply (null_subst MNormal fm x r v0 ps Hg Es).
 Qed.
+
+(* C10: a position-specific wrapper (a named result around the shared expression element) is transparent: the value found under the
+   wrapper's key is exactly the scrubbed expression, whatever the sibling entries are *)
+Lemma dict_get_vals k r (out : list (string * res)) :
+  ~ In k (keys out) -> dict_get k (map (fun kv => (fst kv, fst (snd kv))) (out ++ [(k, r)])) = Some (fst r).
+Proof.
+  induction out as [|[k' r'] t IH]; simpl; intros H.
+  - rewrite String.eqb_refl. reflexivity.
+  - destruct (String.eqb k k') eqn:E.
+    + apply String.eqb_eq in E. subst. exfalso. apply H. left. reflexivity.
+    + apply IH. intros Hin. apply H. right. exact Hin.
+Qed.
+
+Lemma fm_kv_cons {A B} (f : A -> option B) k x (t : list (string * A)) :
+  filter_map (kv_opt f) ((k, x) :: t) =
+  match f x with Some v => (k, v) :: filter_map (kv_opt f) t | None => filter_map (kv_opt f) t end.
+Proof. unfold filter_map at 1, kv_opt at 1. simpl. destruct (f x); reflexivity. Qed.
+
+Theorem wrapper_transparent m fm k e flat before v :
+  scrub_s m fm e = Some v ->
+  ~ In k (keys (filter_map (kv_opt (fun vs => pack_s (filter_map (scrub_s m fm) vs))) before)) ->
+  exists d ps, scrub_s m fm (RPR true (before ++ [(k, [e])]) flat) = Some (JDict d, ps) /\ dict_get k d = Some (fst v).
+Proof.
+  intros He Hk. cbn [scrub_s negb].
+  assert (E : filter_map (kv_opt (fun vs => pack_s (filter_map (scrub_s m fm) vs))) (before ++ [(k, [e])])
+            = filter_map (kv_opt (fun vs => pack_s (filter_map (scrub_s m fm) vs))) before ++ [(k, v)]).
+  { induction before as [|[k0 vs0] t IH].
+    - cbn [app]. rewrite fm_kv_cons. cbn [filter_map pack_s]. rewrite He. reflexivity.
+    - cbn [app]. rewrite !fm_kv_cons.
+      assert (Hk' : ~ In k (keys (filter_map (kv_opt (fun vs => pack_s (filter_map (scrub_s m fm) vs))) t))).
+      { intros Hin. apply Hk. rewrite fm_kv_cons.
+        destruct (pack_s (filter_map (scrub_s m fm) vs0)); simpl; auto. }
+      destruct (pack_s (filter_map (scrub_s m fm) vs0)); rewrite (IH Hk'); reflexivity. }
+  rewrite E.
+  destruct (filter_map (kv_opt (fun vs => pack_s (filter_map (scrub_s m fm) vs))) before ++ [(k, v)]) as [|kv0 rest] eqn:En.
+  { destruct (filter_map (kv_opt (fun vs => pack_s (filter_map (scrub_s m fm) vs))) before); discriminate. }
+  rewrite <- En. unfold pack_d. eexists. eexists. split; [reflexivity|].
+  apply dict_get_vals. exact Hk.
+Qed.
